@@ -66,6 +66,7 @@ def project_base(raw):
 
 class C19(SchedProp):
     id = 'C19'
+    also = ['C19R']
     props_modules = ['CylcModel.Props.C19']
     theorems = [
         'CylcModel.C19.restart_same_instances',
